@@ -126,7 +126,7 @@ func (p *Proof) IsValid(public Public) bool {
 	}
 
 	N := public.N.Big()
-	if big.Jacobi(p.W, N) != -1 {
+	if p.W == nil || big.Jacobi(p.W, N) != -1 {
 		return false
 	}
 
@@ -235,12 +235,22 @@ func (p *Proof) Verify(public Public, hash *hash.Hash, pl *pool.Pool) bool {
 		return false
 	}
 
+	if p.W == nil {
+		return false
+	}
 	if big.Jacobi(p.W, n) != -1 {
 		return false
 	}
 
 	if !arith.IsValidBigModN(n, p.W) {
 		return false
+	}
+	// the responses are checked on pool workers below, where a panic (an absent X or Z) cannot be
+	// recovered by anybody: validate them here first
+	for _, r := range p.Responses {
+		if !arith.IsValidBigModN(n, r.X, r.Z) {
+			return false
+		}
 	}
 
 	// get [yᵢ] <- ℤₙ
